@@ -5,6 +5,7 @@ package props
 import (
 	"fmt"
 	"math"
+	"regexp"
 	"strings"
 	"time"
 
@@ -223,6 +224,8 @@ func c13Engine(c *vk.Case, text string) (ov, error) {
 	return ov{true, res.Series[0].Points[0].V}, nil
 }
 
+var leafRe = regexp.MustCompile(`vector\([0-9.e+-]+\)`)
+
 func runC13(r *vk.Run) {
 	r.SetRule("chains `vector(p1) op1 vector(p2) ...` of up to five prime operands joined by any of the 15 binary operators, evaluated as instant queries: (a) unparenthesised, against the harness's own conventional precedence-climbing evaluator over optional values " +
 		"(^ right-assoc and tightest, then * / %, + -, comparisons, and/unless, or; equal levels left to right); (b) every full parenthesisation (all Catalan trees), against direct tree evaluation. " +
@@ -386,6 +389,58 @@ func runC13(r *vk.Run) {
 			c.Sample("sampled", map[string]any{"query": chainText(vals, ops)})
 		}
 	})
+	// the same groupings with operands that are read from the logs (each operand a count over its own
+	// selector, so that both sides of every operator run a storage query): which operand is the left one
+	// and which the right one is in the text, however the fetches are scheduled
+	r.Phase("logleaves", r.N(400, 40000), func(c *vk.Case) {
+		rng := c.Rng
+		n := rng.Range(2, 4)
+		counts := []float64{2, 3, 5, 7, 11, 13}
+		vk.Shuffle(rng, counts)
+		vals := counts[:n]
+		ops := make([]string, n-1)
+		for i := range ops {
+			ops[i] = vk.Pick(rng, c13Ops)
+		}
+		trees := allTrees(0, n-1)
+		t := trees[rng.Intn(len(trees))]
+		text := leafRe.ReplaceAllStringFunc(t.text(vals, ops, true, 0), func(m string) string {
+			return `sum(count_over_time({job="k` + m[len("vector("):len(m)-1] + `"}[1h]))`
+		})
+		var recs []Rec
+		T := metricT0 + 10e9
+		for _, v := range vals {
+			// the first operand's log is by far the longest: its fetch is the slowest
+			k := int(v)
+			for i := 0; i < k; i++ {
+				recs = append(recs, Rec{TS: T - int64(1+i)*1e9 - int64(k)*1000, Line: "x", Labels: map[string]string{"job": fmt.Sprintf("k%d", k)}})
+			}
+		}
+		sortRecs2(recs)
+		res, err := evalQuery(&MemQuerier{Recs: recs, ErrAfter: -1}, text, EvalP{Start: T, End: T})
+		c.Eval(1)
+		want := t.eval(vals, ops, env0.CmpFalse)
+		det := map[string]any{"query": text, "conventional": want.String(), "result": res}
+		if err != nil {
+			c.Fail("", "query failed: "+text+": "+err.Error(), det)
+			return
+		}
+		got := ov{}
+		if len(res.Series) == 1 && len(res.Series[0].Points) == 1 {
+			got = ov{true, res.Series[0].Points[0].V}
+		} else if len(res.Series) != 0 {
+			c.Fail("", fmt.Sprintf("%s: unexpected result shape", text), det)
+			return
+		}
+		if !ovEqual(got, want) {
+			c.Fail("", fmt.Sprintf("%s = %s, the grouping written gives %s", text, got, want), det)
+			return
+		}
+		c.Count("log_leaf_chains", 1)
+		c.Nontrivial("logleaves|" + text)
+	})
+	r.Require("log_leaf_chains", 300)
+
 	// chains mixing vector(p) operands with scalar literals (`10 - vector(8) / 2`): same conventional
 	// reading; chains in which two literals would meet directly (folded / unsupported) are skipped
 	arithCmp := c13Ops[:12]
